@@ -59,8 +59,11 @@ func c20evalFormat(v int64, frac bool) *Violation {
 
 var c20units = map[string]int64{"ns": 1, "us": 1e3, "µs": 1e3, "μs": 1e3, "ms": 1e6, "s": 1e9, "m": 60e9, "h": 3600e9, "d": 86400e9}
 
+var c20bigWrapped bool
+
 // bigParse is the exact reference evaluator of the duration grammar (with d = 24h).
 func bigParse(s string) (int64, bool) {
+	c20bigWrapped = false
 	neg := false
 	if s != "" && (s[0] == '-' || s[0] == '+') {
 		neg = s[0] == '-'
@@ -141,6 +144,9 @@ func bigParse(s string) (int64, bool) {
 		}
 		total.Add(total, v)
 		if total.Cmp(limit) > 0 {
+			if total.BitLen() > 64 {
+				c20bigWrapped = true // the sum leaves 64 bits: the standard parser's unsigned sum wraps around there
+			}
 			return 0, false
 		}
 	}
@@ -152,6 +158,27 @@ func bigParse(s string) (int64, bool) {
 		return 0, false
 	}
 	return total.Int64(), true
+}
+
+// c20longFraction: the text has a fraction of more than 9 digits. The standard parser evaluates fractions in float64, the
+// exact evaluator does not round; beyond 9 digits (10^k no longer divides the unit) the two may differ by a tick, e.g. "-2.50000000000000us" is -2499 there. The oracle for day-free texts is the standard
+// parser itself - the exact evaluator is only cross-checked against it where both are exact.
+func c20longFraction(s string) bool {
+	run, in := 0, false
+	for i := 0; i < len(s); i++ {
+		switch {
+		case s[i] == '.':
+			in, run = true, 0
+		case in && s[i] >= '0' && s[i] <= '9':
+			run++
+			if run > 9 {
+				return true
+			}
+		default:
+			in = false
+		}
+	}
+	return false
 }
 
 // c20evalParse returns (violation, oracleProblem)
@@ -168,7 +195,7 @@ func c20evalParse(s string) (*Violation, string) {
 	bv, bok := bigParse(s)
 	if !strings.Contains(s, "d") {
 		sv, serr := time.ParseDuration(s)
-		if (serr == nil) != bok || (bok && int64(sv) != bv) {
+		if ((serr == nil) != bok || (bok && int64(sv) != bv)) && !c20longFraction(s) && !c20bigWrapped {
 			// the exact evaluator disagrees with the standard parser: that is a problem of the oracle, not of logg
 			return nil, fmt.Sprintf("reference evaluator disagrees with time.ParseDuration on %q: std (%d,%v) big (%d,%v)", s, int64(sv), serr, bv, bok)
 		}
@@ -179,6 +206,9 @@ func c20evalParse(s string) (*Violation, string) {
 			return mk("same-value", fmt.Sprintf("ParseDuration(%q): logg %d, time.ParseDuration %d", s, int64(got), int64(sv))), ""
 		}
 		return nil, ""
+	}
+	if c20bigWrapped {
+		return nil, "" // a sum beyond 64 bits: the standard parser wraps around there; with a day component no reference is fixed
 	}
 	if (gerr == nil) != bok {
 		return mk("day-unit-accept-reject", fmt.Sprintf("ParseDuration(%q): logg err=%v, exact evaluator (d=24h) accepts=%v", s, gerr, bok)), ""
@@ -364,6 +394,26 @@ func c20run(c *Ctx) {
 			zs := strings.Repeat("0", z)
 			extra = append(extra, zs+"1s", zs+"9223372036854775807ns", "-"+zs+"9223372036854775808ns", zs+"5m", "1."+zs+"1h", zs+"."+zs+"5s", "1.5h30m", "-0.25h10m", "1.000001s5ms")
 		}
+		// long fractions (the digits beyond what an int64 scale can hold), on every day-free unit
+		for _, u := range []string{"ns", "us", "\u00b5s", "ms", "s", "m", "h"} {
+			for k := 1; k <= 26; k++ {
+				extra = append(extra, "0."+strings.Repeat("9", k)+u, "1."+strings.Repeat("0", k-1)+"1"+u, "0.0"+"12345678901234567890123456"[:k]+u, "-2."+"50000000000000000000000000"[:k]+u)
+			}
+			extra = append(extra, "0."+strings.Repeat("0123456789", 7)[:64]+u, "3."+strings.Repeat("9", 64)+u, "0."+strings.Repeat("0", 64)+u)
+		}
+		// several components, each in range, whose sum leaves the range (and may wrap back into it)
+		big := []string{"9223372036854775807ns", "9223372036854775806ns", "4611686018427387904ns", "2562047h", "1ns", "3ns"}
+		var seqs func(prefix string, n int)
+		seqs = func(prefix string, n int) {
+			if n == 0 {
+				return
+			}
+			for _, b := range big {
+				extra = append(extra, prefix+b, "-"+prefix+b)
+				seqs(prefix+b, n-1)
+			}
+		}
+		seqs("", 4)
 		for _, s := range extra {
 			c.Count("evaluations", 1)
 			c.Count("parser_extreme_strings", 1)
